@@ -91,7 +91,13 @@ func ReadPrivateKeyFromHex(Dhex string) (*sm2.PrivateKey,error) {
 
 
 func WritePrivateKeyToHex(key *sm2.PrivateKey) string {
-	return key.D.Text(16)
+	// fixed width: D.Text(16) drops leading zero nibbles, and an odd number of digits
+	// cannot be read back by ReadPrivateKeyFromHex (hex.DecodeString)
+	d := key.D.Bytes()
+	if n := len(d); n < 32 {
+		d = append(zeroByteSlice()[:32-n], d...)
+	}
+	return hex.EncodeToString(d)
 }
 
 func ReadPublicKeyFromHex(Qhex string) (*sm2.PublicKey, error) {
